@@ -152,6 +152,8 @@ class Outcome:
 
 
 class Scheduler:
+    debug_log = None      # set to a list to record every (thread, function, line) event (diagnosis only)
+
     def __init__(self, strategy: Strategy, max_steps: int = 400000, opcode_level: bool = False,
                  wall_limit: float = 60.0):
         self.strategy = strategy
@@ -182,6 +184,8 @@ class Scheduler:
             out.steps_per_thread[tid] += 1
             code = frame.f_code
             h.update(b"%d:%s:%d;" % (tid, code.co_name.encode(), frame.f_lineno))
+            if Scheduler.debug_log is not None:
+                Scheduler.debug_log.append("%d:%s:%s:%d" % (tid, os.path.basename(code.co_filename), code.co_name, frame.f_lineno))
             if step >= self.max_steps:
                 state["free_run"] = True
                 for s in sems:
